@@ -397,6 +397,7 @@ struct es {
     int nau;
     /* parameters */
     int log2_frame_num, poc_type, log2_poc, sps_id, pps_id;
+    int level;      /* level_idc of the sequence parameter set: may change at an IDR (same id, other content) */
 };
 
 static void es_add(struct es *e, int type, const struct tsl_buf *hdr_rbsp_ebsp, int sc)
@@ -443,7 +444,7 @@ static void slice_data(struct vh_rng *r, struct bw *w)
 static void h264_sps(struct vh_rng *r, struct es *e, int sc)
 {
     struct bw w; bw_init(&w);
-    bw_bits(&w, 8, 66); bw_bits(&w, 8, 0); bw_bits(&w, 8, 30);
+    bw_bits(&w, 8, 66); bw_bits(&w, 8, 0); bw_bits(&w, 8, (uint64_t)e->level);
     bw_ue(&w, (uint32_t)e->sps_id);
     bw_ue(&w, (uint32_t)(e->log2_frame_num - 4));
     bw_ue(&w, (uint32_t)e->poc_type);
@@ -510,13 +511,13 @@ static void h264_misc(struct vh_rng *r, struct es *e, int type, int sc)
 /* ---- H.265 ---- */
 static void h265_hdr(uint8_t *h, int type) { h[0] = (uint8_t)(type << 1); h[1] = 1; }
 
-static void h265_ptl(struct bw *w)
+static void h265_ptl(struct bw *w, int level)
 {
     bw_bits(w, 2, 0); bw_bit(w, 0); bw_bits(w, 5, 1);
     bw_bits(w, 32, 0x60000000);
     bw_bit(w, 1); bw_bit(w, 0); bw_bit(w, 0); bw_bit(w, 1);
     bw_bits(w, 32, 0); bw_bits(w, 12, 0);      /* 44 reserved bits */
-    bw_bits(w, 8, 93);
+    bw_bits(w, 8, (uint64_t)level);
 }
 
 static void h265_vps(struct vh_rng *r, struct es *e, int sc)
@@ -524,7 +525,7 @@ static void h265_vps(struct vh_rng *r, struct es *e, int sc)
     struct bw w; bw_init(&w);
     bw_bits(&w, 4, 0); bw_bit(&w, 1); bw_bit(&w, 1); bw_bits(&w, 6, 0); bw_bits(&w, 3, 0); bw_bit(&w, 1);
     bw_bits(&w, 16, 0xffff);
-    h265_ptl(&w);
+    h265_ptl(&w, 93);
     bw_bit(&w, 1); bw_ue(&w, 1); bw_ue(&w, 0); bw_ue(&w, 0);
     bw_bits(&w, 6, 0); bw_ue(&w, 0);
     bw_bit(&w, 0); bw_bit(&w, 0);
@@ -537,7 +538,7 @@ static void h265_sps(struct vh_rng *r, struct es *e, int sc)
 {
     struct bw w; bw_init(&w);
     bw_bits(&w, 4, 0); bw_bits(&w, 3, 0); bw_bit(&w, 1);
-    h265_ptl(&w);
+    h265_ptl(&w, e->level);
     bw_ue(&w, (uint32_t)e->sps_id);
     bw_ue(&w, 1);                       /* chroma_format_idc */
     bw_ue(&w, 320); bw_ue(&w, 240);
@@ -619,6 +620,7 @@ static struct es *gen_es(struct vh_rng *r, bool h265, int nau, bool sc3_start)
     e->log2_poc = 4 + vh_below(r, 6);
     e->sps_id = vh_below(r, 4);
     e->pps_id = vh_below(r, 6);
+    e->level = h265 ? 93 : 30;
     bool aud = vh_chance(r, 1, 2);
     bool sei = vh_chance(r, 1, 2);
     uint32_t frame_num = 0, idr_id = vh_below(r, 10), poc = 0;
@@ -632,6 +634,14 @@ static struct es *gen_es(struct vh_rng *r, bool h265, int nau, bool sc3_start)
         bool ps = a == 0 || (idr && vh_chance(r, 1, 2)) || vh_chance(r, 1, 10);
         int nslices = 1 + (vh_chance(r, 1, 3) ? vh_below(r, 3) : 0);
         int sc0 = a == 0 ? first_sc : gen_sc(r);
+        /* a new coded video sequence may come with another sequence parameter
+         * set under the same id, the picture parameter set being re-sent as is */
+        if (a > 0 && idr && ps && vh_chance(r, 1, 3)) {
+            static const int l264[] = { 21, 30, 31, 40 }, l265[] = { 63, 90, 93, 120 };
+            int nl; do nl = h265 ? l265[vh_below(r, 4)] : l264[vh_below(r, 4)]; while (nl == e->level);
+            e->level = nl;
+            VH_COUNT("es.sps_changed_under_the_same_id");
+        }
         if (!h265) {
             if (idr) { frame_num = 0; idr_id++; poc = 0; } else { frame_num = (frame_num + 1) & ((1u << e->log2_frame_num) - 1); poc = (poc + 2) & ((1u << e->log2_poc) - 1); }
             int ref = idr ? 3 : (vh_chance(r, 1, 4) ? 0 : 2);
